@@ -293,7 +293,16 @@ def run(ctx):
             continue
         F, Q, xb, sb, tag = meta[i]
         if tag.startswith("tensor"):
-            continue  # tensor cases: broadcasting handled below through elementwise expansion
+            # per-axis / broadcast cases: expand the scale to one value per element and judge elementwise
+            toks = a.split()
+            shp = [int(d) for d in l.split()[4].split("x")] if l.split()[4] != "-" else []
+            sshp = [int(d) for d in l.split()[6].split("x")] if l.split()[6] != "-" else []
+            if toks[2] != l.split()[4]:
+                continue     # the result was broadcast to a larger shape than the source: not a property case
+            sfull = tensor_of_bits(sb, F, sshp).expand(shp).contiguous() if shp else tensor_of_bits(sb, F, sshp).reshape(1)
+            spec_lines.append(f"spec01 {F} {Q} {list_s(xb)} {list_s(bits_of(sfull, F))} {toks[3]} {toks[5]}")
+            spec_meta.append((i, "spec", 1))
+            continue
         toks = a.split()
         codes, ybits, again = toks[3], toks[5], toks[6]
         step = 1 if broken else 8
